@@ -18,3 +18,7 @@ SPEC = dc.spec(
                "by the model's atomic steps (C07/C18's subject); acknowledgement markers are compared up to their position.",
     design_ref="§6 C05",
     rule=dc.RULE + "  C05: every history has checkpoints (30% of the steps) and rotations (35% of the checkpoints), up to 9 steps.")
+
+
+def run(ctx, replay):
+    return dc.run_check(SPEC, ctx, replay)
